@@ -16,6 +16,7 @@ func init() {
 			ID: "C02",
 			Explanation: "Structural necessary conditions of 'only the in-flight request id is accepted, and only once': every route carrying a request id is wrapped in the id validator, whose pass-through is dominated by 'id non-empty and equal to the current invocation id' and whose refusal renders 400; the reply sink re-checks id, ReplySent and reply stream under the server mutex and produces every non-refusal outcome only after the id test; " +
 				"the response/error handlers perform the state transition first, refuse with 403 without effect, and mark the response as sent only on paths on which a reply was actually delivered; the automaton refuses second submissions; and every reply is addressed by an id captured at dispatch (URL parameter, or the id obtained when the reply stream was attached), never by 'whatever invocation is current at send time' (the one exception, /init/error which carries no id, is listed with its reason). " +
+				"Added after the blind rounds: the reply sink is one critical section under the server mutex entered by every caller with the lock held by defer; SendResponse/SendErrorResponse always reach the sink; the errors the response handler switches on reach it with their identity intact (R-ERRID). " +
 				"NOT decided: the timing of a stale submission relative to the next reservation (schedule quantifier); that the 400/403 reaches the client.",
 			RuleText:    "one obligation per id route, per exit/producer of the reply sink, per handler effect, per ResponseSent site, per automaton cell concerned, per Send call site (origin of its id argument)",
 			Assumptions: trusted,
